@@ -176,16 +176,257 @@ def _run(ctx, oracle_only=False):
     return res
 
 
+# ------------------------------------------------------------------------------------------------
+# wire level: every path the storage backend receives, under sessions whose state changes while a
+# transfer is pending (the path a command addresses is fixed when the command is received)
+# ------------------------------------------------------------------------------------------------
+WIRE_TREE = [
+    (("ub",), None), (("ub", "a"), None), (("ub", "a", "x.txt"), b"ub-a-x"), (("ub", "a", "b"), None),
+    (("ub", "a", "b", "y.txt"), b"ub-a-b-y"), (("ub", "x.txt"), b"ub-x"), (("ub", "pub"), None), (("ub", "pub", "x.txt"), b"ub-pub-x"),
+    (("uc",), None), (("uc", "pub"), None), (("uc", "pub", "x.txt"), b"uc-pub-x"), (("uc", "x.txt"), b"uc-x"), (("uc", "a"), None),
+    (("uc", "a", "x.txt"), b"uc-a-x"),
+]
+TRANSFERS = ["RETR x.txt", "RETR a/x.txt", "RETR ../x.txt", "STOR n.bin", "STOR a/../n.bin", "APPE x.txt", "LIST", "LIST a", "MLSD .", "MLSD a/b/.."]
+INTERPOSED = ["CWD a", "CWD /a/b", "CDUP", "CWD /pub", "USER carl", "USER bob", "PWD", "CWD ..", "REST 2", "MKD zz", "RNFR x.txt"]
+PLAIN = ["CWD a", "CWD /a/b", "CDUP", "CWD /", "CWD pub", "MKD q/r", "MLST x.txt", "DELE n.bin", "RNFR x.txt", "RNTO x2.txt", "RMD q/r", "PWD"]
+
+
+def _wire_users():
+    import world as W
+
+    return [W.UserSpec("bob", None, home="/"), W.UserSpec("carl", None, home="/pub")]
+
+
+def gen_wire_plans(ctx):
+    plans = []
+    for t in TRANSFERS:
+        plans.append([("late", t, [])])
+        for i in INTERPOSED:
+            plans.append([("late", t, [i])])
+            plans.append([("cmd", "CWD a"), ("late", t, [i])])
+        for i, j in itertools.product(INTERPOSED[:6], repeat=2):
+            plans.append([("late", t, [i, j])])
+    rng = ctx.rng
+    for _ in range(ctx.pick(150, 2000)):
+        plan = []
+        for _ in range(rng.randint(1, 6)):
+            if rng.random() < 0.5:
+                plan.append(("cmd", rng.choice(PLAIN)))
+            else:
+                plan.append(("late", rng.choice(TRANSFERS), [rng.choice(INTERPOSED) for _ in range(rng.randint(0, 3))]))
+        plans.append(plan)
+    return plans
+
+
+async def _wire_session(loop, plan):
+    """returns list of records: per transfer {cmd, cwd_at_receive, base_at_receive, opens: [paths], calls: [(name, paths)]}"""
+    import world as W
+    import spyio
+
+    users = _wire_users()
+    spy = spyio.Spy()
+    wd = W.World(loop, users, spy=spy)
+    await wd.start()
+    # distinct base paths per user
+    recs = []
+    try:
+        wd.set_tree(WIRE_TREE)
+        wd.users[0].base_path = pathlib.Path("ub")
+        wd.users[1].base_path = pathlib.Path("uc")
+        raw = await wd.raw_client()
+        await W.run_line(wd, raw, b"USER bob")
+
+        def state():
+            conn = wd.connection_of(raw)
+            if conn is None:
+                return None
+            ok, u = wd._get(conn, "user")
+            ok2, c = wd._get(conn, "current_directory")
+            return (str(u.base_path) if ok else None, str(c) if ok2 else "/")
+
+        for step in plan:
+            st = state()
+            if st is None or raw.eof:
+                break
+            n0 = len(spy.log)
+            if step[0] == "cmd":
+                await W.run_line(wd, raw, step[1].encode())
+                recs.append({"cmd": step[1], "state": st, "calls": [(n, p) for _, n, p in spy.log[n0:]], "late": False})
+            else:
+                await W.run_line(wd, raw, b"EPSV")
+                st = state()
+                n0 = len(spy.log)
+                c0 = len(raw.replies)
+                raw.send_raw(step[1].encode() + b"\r\n")
+                await loop.settle()
+                accepted = any(c == "150" for c, _ in raw.replies[c0:])
+                n1 = len(spy.log)
+                inter = []
+                for line in step[2]:
+                    await W.run_line(wd, raw, line.encode())
+                    inter.append(line)
+                n2 = len(spy.log)
+                if accepted and not raw.eof and wd.connection_of(raw) is not None:
+                    ok = await W.data_connect(wd, raw)
+                    if ok and raw.data is not None:
+                        dr, dw = raw.data
+                        if step[1].split(" ")[0] in ("STOR", "APPE"):
+                            dw.write(b"NEW")
+                            dw.close()
+                        else:
+                            try:
+                                await asyncio.wait_for(dr.read(), 30)
+                            except Exception:
+                                pass
+                            dw.close()
+                        raw.data = None
+                        await loop.settle()
+                    else:
+                        await asyncio.sleep(1.5)
+                        await loop.settle()
+                recs.append(
+                    {
+                        "cmd": step[1],
+                        "state": st,
+                        "late": True,
+                        "interposed": inter,
+                        "accepted": accepted,
+                        "calls": [(n, p) for _, n, p in spy.log[n0:n1]],
+                        "worker_calls": [(n, p) for _, n, p in spy.log[n2:]],
+                        "interposed_calls": [(n, p) for _, n, p in spy.log[n1:n2]],
+                    }
+                )
+        raw.close()
+        await loop.settle()
+    finally:
+        try:
+            await wd.stop()
+        except Exception:
+            wd.finish()
+    return recs
+
+
+def _wire_job(plan):
+    import simnet
+
+    try:
+        return simnet.run(_wire_session, plan)
+    except BaseException as e:  # noqa
+        return "HARNESS-ERROR %s: %s" % (type(e).__name__, e)
+
+
+PATH_CALLS = {"exists", "is_dir", "is_file", "mkdir", "rmdir", "unlink", "list", "stat", "open", "rename"}
+
+
+def _paths_of(call):
+    name, p = call
+    if p is None or name not in PATH_CALLS:
+        return []
+    if isinstance(p, list):
+        return [x for x in p if not x.startswith("'")][: 2 if name == "rename" else 1]
+    return [p]
+
+
+def wire_oracle(plan, recs):
+    """containment of every backend path + the worker of a pending transfer uses the path addressed at receive time"""
+    for r in recs:
+        base, cwd = r["state"]
+        if base is None:
+            continue
+        all_calls = r["calls"] + r.get("worker_calls", [])
+        for call in all_calls:
+            for p in _paths_of(call):
+                parts = pathlib.PurePosixPath(p).parts
+                bparts = pathlib.PurePosixPath(base).parts
+                if parts[: len(bparts)] != bparts or ".." in parts:
+                    return {"what": "backend %s(%s) for %r is outside the base %r of the user who sent it" % (call[0], p, r["cmd"], base), "signature": "C02:wire:outside-base"}
+        if r.get("late") and r.get("accepted"):
+            arg = r["cmd"].partition(" ")[2]
+            cwd_parts = [x for x in cwd.split("/") if x]
+            want = "/".join(list(pathlib.PurePosixPath(base).parts) + py_walk(cwd_parts, arg))
+            for name, p in r["worker_calls"]:
+                if name == "open":
+                    got = _paths_of((name, p))[0]
+                    if got != want:
+                        return {
+                            "what": "%r received in cwd %r (base %r) addressed %r but the worker opened %r after %r" % (r["cmd"], cwd, base, want, got, r.get("interposed")),
+                            "signature": "C02:wire:path-resolved-after-state-change",
+                        }
+                if name == "list" and p is not None:
+                    got = _paths_of((name, p))[0]
+                    if got != want:
+                        return {
+                            "what": "%r received in cwd %r addressed %r but the worker listed %r after %r" % (r["cmd"], cwd, want, got, r.get("interposed")),
+                            "signature": "C02:wire:path-resolved-after-state-change",
+                        }
+    return None
+
+
+def _wire(ctx, compare=True):
+    import multiprocessing
+    import os
+
+    res = Result()
+    plans = gen_wire_plans(ctx)
+    mp = multiprocessing.get_context("fork")
+    with mp.Pool(min(16, os.cpu_count() or 4)) as pool:
+        outs = pool.map(_wire_job, plans, chunksize=8)
+    lines, expect = [], []
+    for plan, recs in zip(plans, outs):
+        res.cases += 1
+        res.count("wire_plans")
+        if isinstance(recs, str):
+            res.disagreements.append({"correspondence": "wire harness", "input": plan, "impl": recs})
+            continue
+        if any(s[0] == "late" and s[2] for s in plan):
+            res.distinct.add(("wire", repr(plan)))
+        f = wire_oracle(plan, recs)
+        if f:
+            f["input"] = {"wire_plan": plan}
+            res.oracle_failures.append(f)
+        # model: the path every accepted pending transfer opens/lists is Model.getPaths at receive time
+        for r in recs:
+            if r.get("late") and r.get("accepted") and r["state"][0] is not None:
+                base, cwd = r["state"]
+                arg = r["cmd"].partition(" ")[2]
+                for name, p in r["worker_calls"]:
+                    if name in ("open", "list") and p is not None:
+                        got = _paths_of((name, p))[0]
+                        lines.append("paths getpaths %s %s %s" % (canon(pathlib.PurePosixPath(base)), canon(pathlib.PurePosixPath(cwd)), enc_str(arg)))
+                        expect.append((plan, r["cmd"], canon(pathlib.PurePosixPath(got))))
+                        break
+    if compare and ctx.model_ok and lines:
+        outs = drive(lines)
+        res.lines += len(lines)
+        for (plan, cmd, got), o in zip(expect, outs):
+            if o.split(" ")[0] != got:
+                if len(res.disagreements) < 10:
+                    res.disagreements.append({"correspondence": "Model.getPaths vs path the backend received (wire)", "input": {"wire_plan": plan, "cmd": cmd}, "model": o.split(" ")[0], "impl": got})
+    res.samples = [{"wire_plan": plans[5]}, {"wire_plan": plans[-1]}]
+    return res
+
+
 def correspondence(ctx):
-    return _run(ctx)
+    r = _run(ctx)
+    r.merge(_wire(ctx))
+    return r
 
 
 def search(ctx, prior):
-    return _run(ctx, oracle_only=True)
+    r = _run(ctx, oracle_only=True)
+    r.merge(_wire(ctx, compare=False))
+    return r
 
 
 def replay(ctx, doc):
     i = doc["failure"]["input"]
+    if "wire_plan" in i:
+        plan = [tuple(x) for x in i["wire_plan"]]
+        recs = _wire_job(plan)
+        f = wire_oracle(plan, recs) if not isinstance(recs, str) else {"what": recs}
+        print("records:", recs)
+        print("oracle:", f)
+        return f is not None
     got = impl_eval([(i["base"], i["cwd"], i["arg"], i.get("cdup_form", False))])[0]
     why = oracle(i["base"], i["cwd"], i["arg"], i.get("cdup_form", False), got)
     print("implementation:", got, "->", why)
